@@ -5,6 +5,7 @@ import (
 	"flag"
 	"fmt"
 	"os"
+	"path/filepath"
 	"strings"
 	"time"
 
@@ -21,15 +22,24 @@ func main() {
 	case "run":
 		cmdRun(os.Args[2:])
 	case "check":
-		os.Exit(drive.CmdCheck(os.Args[2:]))
+		exit(drive.CmdCheck(os.Args[2:]))
 	case "replay":
-		os.Exit(drive.CmdReplay(os.Args[2:]))
+		exit(drive.CmdReplay(os.Args[2:]))
 	case "selftest":
-		os.Exit(drive.CmdSelftest(os.Args[2:]))
+		exit(drive.CmdSelftest(os.Args[2:]))
 	default:
 		fmt.Fprintln(os.Stderr, "unknown command", os.Args[1])
 		os.Exit(2)
 	}
+}
+
+// exit removes this process's scratch copies of the harness API file first.
+func exit(rc int) {
+	ms, _ := filepath.Glob(filepath.Join(os.TempDir(), fmt.Sprintf("gosym-api-*-%d.go", os.Getpid())))
+	for _, m := range ms {
+		os.Remove(m)
+	}
+	os.Exit(rc)
 }
 
 func cmdRun(args []string) {
